@@ -113,9 +113,18 @@ class ParseSim:
 
     def related_input(self, rng, gname, prev):
         g = self.grammars[gname]
-        k = rng.below(5)
+        k = rng.below(6)
         chars = list(prev)
         if k == 0 or not chars:
+            return prev
+        if k == 5:
+            # same length in BYTES, different text: two ASCII characters become one two-byte character or vice versa
+            for _ in range(8):
+                i = rng.below(len(chars))
+                if i + 1 < len(chars) and ord(chars[i]) < 128 and ord(chars[i + 1]) < 128:
+                    return "".join(chars[:i] + [rng.choice(["\u00e9", "\u0151", "\u00df"])] + chars[i + 2:])
+                if 0x80 <= ord(chars[i]) < 0x800:
+                    return "".join(chars[:i] + [rng.choice(["ab", "x1", "  "])] + chars[i + 1:])
             return prev
         if k == 1:
             return "".join(chars[: rng.below(len(chars) + 1)])
@@ -287,7 +296,7 @@ class ParseSim:
 
     def plan_c05(self, i):
         rng = Rng(derive(self.seed, "c05", i))
-        cands = sorted(g for g in self.grammars if not self.grammars[g]["ctx"] and any(v["mask"] != 0 for v in self.by_grammar[g]))
+        cands = sorted(g for g in self.grammars if (not self.grammars[g]["ctx"] or self.grammars[g].get("ctx_readonly")) and any(v["mask"] != 0 for v in self.by_grammar[g]))
         g = rng.choice(cands)
         memo_vs = [v for v in self.by_grammar[g] if v["mask"] != 0]
         v1 = rng.choice(memo_vs)
@@ -309,7 +318,7 @@ class ParseSim:
                 else:
                     inp = self.gen_input(rng, g)
                 prev = inp
-                job = {"variant": vn, "rule": rng.choice(v["exported"]), "input": inp, "ctx": [0, 0], "align": rng.below(8),
+                job = {"variant": vn, "rule": rng.choice(v["exported"]), "input": inp, "ctx": self.gen_ctx(rng, v), "align": rng.below(8),
                        "entry": rng.weighted([("sim", 70), ("parse", 20), ("noop", 10)])}
                 est += 150 if job["entry"] == "sim" else 4
                 q.append(job)
@@ -374,6 +383,9 @@ class ParseSim:
         lines = []
         for p in plans:
             q = dict(p)
+            if q.get("reuse_buffer") and (q.get("sim_seed", 0) >> 7) % 2 == 0:
+                # the reused buffer hands consecutive inputs to the parser at the very same address
+                q["tasks"] = [[dict(j, align=0) for j in t] for t in q["tasks"]]
             if keep_log:
                 q["keep_log"] = True
             lines.append(json.dumps(q, ensure_ascii=False))
@@ -519,7 +531,7 @@ def run_check(prop, tier, seed, replay_path=None):
     if replay_path:
         return replay(ps, prop, replay_path)
 
-    nsims = {"C20": {"quick": 2500, "thorough": 120000}, "C05": {"quick": 2000, "thorough": 100000}}[prop][tier]
+    nsims = {"C20": {"quick": 3000, "thorough": 120000}, "C05": {"quick": 2000, "thorough": 100000}}[prop][tier]
     nsims = int(os.environ.get("VERIF_NSIMS", nsims))
     make = ps.plan_c20 if prop == "C20" else ps.plan_c05
     det = determinism_selftest(ps, make, 30 if tier == "quick" else 200)
